@@ -5,6 +5,7 @@ import (
 
 	"github.com/Fantom-foundation/lachesis-base/common/bigendian"
 	"github.com/Fantom-foundation/lachesis-base/common/littleendian"
+	"github.com/Fantom-foundation/lachesis-base/hash"
 	"github.com/Fantom-foundation/lachesis-base/inter/idx"
 	"github.com/Fantom-foundation/lachesis-base/zzverif/sym"
 )
@@ -114,6 +115,12 @@ func VerifH_C32_eventID() {
 	less := sym.Or(e1 < e2, sym.And(e1 == e2, sym.Or(l1 < l2, sym.And(l1 == l2, ct < 0))))
 	sym.Assert(sym.Iff(c < 0, less), "ID byte order is (epoch, Lamport, tail) lexicographic")
 	sym.Assert(sym.Implies(sym.Or(e1 < e2, sym.And(e1 == e2, l1 < l2)), c < 0), "earlier (epoch, Lamport) sorts first")
+	// the sortable ID list of package hash orders the same way
+	oe := hash.OrderedEvents{id1, id2}
+	sym.Assert(sym.Iff(oe.Less(0, 1), less), "OrderedEvents.Less orders by epoch, then Lamport time, then the rest of the ID")
+	sym.Assert(sym.Iff(oe.Less(1, 0), sym.And(sym.Not(less), c != 0)), "OrderedEvents.Less is the strict order of the IDs")
+	oe.ByEpochAndLamport()
+	sym.Assert(bytes.Compare(oe[0].Bytes(), oe[1].Bytes()) <= 0, "ByEpochAndLamport sorts the IDs ascending")
 	sym.Observe("id1", id1[:])
 	sym.Reach("eventID")
 }
